@@ -36,6 +36,8 @@ def extra(rng, tier):
         p = own_registry_program(progs.gen_program(random.Random(rng.getrandbits(64)), cfg))
         nc = sum(1 for c in p if c[0] == 'new')
         for i in range(nc):
+            if rng.random() < 0.5:
+                p.append(['list', i])      # indices read BEFORE the unrolling shifts them (seeded change C07-m3: memoised table)
             p.append(['apply', i])
             p.append(['list', i])
         out.append(p)
@@ -44,12 +46,12 @@ def extra(rng, tier):
 
 SPEC = streamcheck.StreamSpec(
     PROP, probes=['C07'],
-    cfg=progs.GenConfig(n_cmds=(6, 36), p_list=0.0, p_sub=0.14, p_apply=0.08, p_flatten=0.04, p_copy=0.0,
+    cfg=progs.GenConfig(n_cmds=(6, 36), p_list=0.10, p_sub=0.14, p_apply=0.08, p_flatten=0.04, p_copy=0.0,
                         class_weights=W),
     n_quick=900, n_thorough=30000,
     nontrivial=nontrivial,
     extra_programs=extra,
-    rule='random build programs with ~35 % measurements, tags from a 3-letter alphabet, registries drawn from all live '
+    rule='random build programs with ~35 % measurements, indices read at random points between the mutations (p=0.1 per command), tags from a 3-letter alphabet, registries drawn from all live '
          'circuits (the predicate is evaluated where every listed measurement was created against the circuit it was '
          'added to and all counts are 1), plus an implicitly sequenced stream ending in apply+list for the time-order '
          'clause; non-trivial = >= 3 measurements and nesting or unrolling; distinct = distinct program text',
